@@ -22,6 +22,8 @@ candidate reported for it — `static_candidate_sound` (one operator), `static_c
 The dynamic statement is FALSE on the pinned code for `>=` (finding F-1: both `GreaterThanOrEqual`
 arms of dynamic.rs build `Range::with_end`): `dynamic_candidate_sound_false`; and the resolution of
 an ordering hint against a null tag value panics (finding F-2): `dynamic_candidate_null_tag_panics`.
+Finding F-C04-1 (look-ahead through a non-root `@optional` edge reported binding hints) is repaired:
+`lookahead_through_optional_non_binding`.
 
 GLOBAL: `prune_invariant` (full statement, below) — proved for the static candidates at every
 resolution point (`prune_static_invariant_partial`); the mandatory-edge look-ahead is stated and
@@ -184,30 +186,48 @@ theorem mandatory_fold_empty_fails_a_filter (rx : RegexEngine) (args : List (Nam
   have := foldRequiresAtLeastOne_sound rx args post 0 h hf
   simp at this
 
-/-! ### a look-ahead that is binding where it must not be (finding F-C04-1)
+/-! ### look-ahead through `@optional` (finding F-C04-1, repaired)
 
-`NeighborInfo::make_non_folded_edge_info` inherits `within_optional_scope` from the current hint
-object and forgets the edge's own `optional` flag.  For
+History: before the repair `NeighborInfo::make_non_folded_edge_info` inherited
+`within_optional_scope` from the current hint object and forgot the edge's own `optional` flag.  For
 `{ RA { id @output e { g @optional { x @filter(op: "=", value: ["$v"]) @output } } } }` (Vids 1, 2, 3;
-`g` = Eid 2): the hint object reached from the root by `first_edge("e").destination()
-.first_edge("g").destination()` reports filters as binding and the candidate `Single($v)` for `x`,
-while the hint object of the resolution point of `g` (and the look-ahead from a `ResolveInfo` at
-vertex 2) correctly report nothing. -/
+`g` = Eid 2) the hint object reached from the root by `first_edge("e").destination()
+.first_edge("g").destination()` reported filters as binding and the candidate `Single($v)` for `x`
+(witness theorem `lookahead_through_optional_reports_binding` of the earlier revision: `viaRoot
+.nonBinding = false`, `staticallyRequired … viaRoot la_v3 "x" = .ok (some (.single (.int64 7)))`),
+while the hint object of the resolution point of `g` reported nothing; a pruning adapter applying the
+looked-ahead candidate turned 0 rows into 1.  With `self.within_optional_scope || edge.optional`: -/
 
 def la_e1 : IREdge := ⟨1, 1, 2, "e", [], false, none⟩
 def la_e2 : IREdge := ⟨2, 2, 3, "g", [], true, none⟩
 def la_v3 : IRVertex :=
   ⟨3, "A", none, [⟨.bin .equals, .loc "x" ⟨"Int", [true]⟩, some (.var "v" ⟨"Int", [true]⟩)⟩]⟩
 
-theorem lookahead_through_optional_reports_binding :
+/-- Looking ahead through an `@optional` edge — from a `ResolveInfo` or from any `NeighborInfo` —
+yields a non-binding hint object: no static candidate, no dynamic candidate, no mandatory edge. -/
+theorem lookahead_through_optional_non_binding (i : VInfo) (e : IREdge) (h : e.optional = true) :
+    (i.nonFoldedEdge e).destination.nonBinding = true ∧ (i.nonFoldedEdge e).isMandatory = false := by
+  cases hi : i.isResolveInfo <;> simp [VInfo.nonFoldedEdge, VInfo.nonBinding, EInfo.isMandatory, hi, h]
+
+/-- … and the non-binding state is inherited by everything below (regular edges and folds). -/
+theorem lookahead_below_optional_non_binding (args : List (Name × Value)) (i : VInfo)
+    (hi : i.isResolveInfo = false) (hw : i.withinOptional = true) (e : IREdge) (f : Fold) (ef : EInfo)
+    (hf : i.foldedEdge args f = .ok ef) :
+    (i.nonFoldedEdge e).destination.nonBinding = true ∧ ef.destination.nonBinding = true := by
+  constructor
+  · simp [VInfo.nonFoldedEdge, VInfo.nonBinding, hi, hw]
+  · simp only [VInfo.foldedEdge] at hf
+    cases hr : foldRequiresAtLeastOne args f.post with
+    | ok b => rw [hr] at hf; simp only [R.map] at hf; cases hf; simp [VInfo.nonBinding, hi, hw]
+    | panic s => rw [hr] at hf; simp [R.map] at hf
+    | fuel => rw [hr] at hf; simp [R.map] at hf
+
+/-- The former witness: now nothing is reported for the vertex inside the `@optional`. -/
+theorem lookahead_witness_repaired :
     let viaRoot := (((VInfo.resolve 1 false).nonFoldedEdge la_e1).destination.nonFoldedEdge la_e2).destination
-    la_e2.optional = true ∧
-    viaRoot.nonBinding = false ∧
-    staticallyRequired [("v", .int64 7)] viaRoot la_v3 "x" = .ok (some (.single (.int64 7))) ∧
-    (VInfo.ofEdge la_e2).nonBinding = true ∧
-    staticallyRequired [("v", .int64 7)] (VInfo.ofEdge la_e2) la_v3 "x" = .ok none ∧
-    ((VInfo.resolve 2 true).nonFoldedEdge la_e2).destination.nonBinding = true :=
-  ⟨rfl, rfl, rfl, rfl, rfl, rfl⟩
+    viaRoot.nonBinding = true ∧
+    staticallyRequired [("v", .int64 7)] viaRoot la_v3 "x" = .ok none :=
+  ⟨rfl, rfl⟩
 
 /-! ### the global statement
 
@@ -278,6 +298,8 @@ end TF.C04
 #print axioms TF.C04.mandatory_edge_shape
 #print axioms TF.C04.mandatory_edge_no_neighbour_no_context
 #print axioms TF.C04.mandatory_fold_empty_fails_a_filter
-#print axioms TF.C04.lookahead_through_optional_reports_binding
+#print axioms TF.C04.lookahead_through_optional_non_binding
+#print axioms TF.C04.lookahead_below_optional_non_binding
+#print axioms TF.C04.lookahead_witness_repaired
 #print axioms TF.C04.prune_static_invariant_partial
 #print axioms TF.C04.rejected_vertex_never_survives
